@@ -18,7 +18,7 @@ import (
 // stmt : (use id ...) | (group 'prefix (id ...) (stmt ...)) | (route ('M ...) 'path main (var ...) (later ...) 'name)
 //        | (nf id ...) | (nal id ...)
 // op   : (ev n) (next) (abort) (abortthen) (abs code) (isab) (panic n) (w <wop>) (sd 'k v) (ae n) (sp 'k 'v) (rr) (rq) (snap)
-// req  : ('METHOD 'path target (script n ...))     target: (route i) | (nf) | (na 'M ...)
+// req  : ('METHOD 'path (script n ...))
 // obs  : ((reg (route 'path nh) ... (scope 'prefix ngroup nglobal)) (reqs (req (trace ...) (log ...) (esc ...)) ...)) | (regpanic)
 
 type verifPanic struct{ n int }
@@ -234,7 +234,7 @@ func rpExec(c Sx) (out Sx) {
 	reqs := []Sx{A("reqs")}
 	for _, rq := range xs[4].Lst() {
 		var script []int
-		for _, s := range rq.List[3].Lst() {
+		for _, s := range rq.List[2].Lst() {
 			script = append(script, s.Int())
 		}
 		w := newRecWriter(script)
